@@ -216,6 +216,19 @@ def gen_mesh(o):
         expr = "if negb %s_empty then %d else %s" % (m.group(1), dimval(b), expr)
     o.d("Definition compute_dimensionality (cells_empty faces_empty edges_empty : bool) : Z := %s." % expr)
 
+    # prepare() drops the edges that are not valid: the class of the loaded object depends on it
+    pe = T.find_def(tree, "RawMeshData._prepare_edges", rel)
+    o.src("RawMeshData._prepare_edges", src, pe)
+    iv = T.find_def(tree, "RawMeshData._prepare_edges.is_valid", rel)
+    b = T.body_nodoc(iv)
+    if [a.arg for a in iv.args.args] != ["a", "b"] or len(b) != 1 or not isinstance(b[0], ast.Return):
+        T.fail(rel, iv, "unexpected is_valid")
+    o.d("Definition prepare_edge_is_valid (a b N : Z) : bool := %s." % bexpr(b[0].value, {"a": "a", "b": "b", "N": "N"}, {}, rel))
+    pt = ast.unparse(pe)
+    if "N = len(self.vertices)" not in pt or "edges_invalid = any((not is_valid(a, b) for a, b in self.edges))" not in pt \
+            or "if is_valid(a, b):\n                new_edges.append(utils.keyify(a, b))" not in pt:
+        T.fail(rel, pe, "unexpected _prepare_edges")
+
     rel = "mouette/mesh/mesh.py"
     src, tree = T.load(rel)
     fn = T.find_def(tree, "_instanciate_raw_mesh_data", rel)
@@ -392,22 +405,24 @@ def gen_obj(o):
     im = T.find_def(tree, "parse_obj_data", rel)
     o.src("parse_obj_data", src, im)
     loop = find_one(im.body, lambda s: isinstance(s, ast.For) and ast.unparse(s.iter) == "data", rel, "line loop", im)
-    if ast.unparse(loop.body[0]) != "toks = line.split()" or ast.unparse(loop.body[1]) != "if not toks:\n    continue":
+    mt = re.fullmatch(r"(\w+) = %s\.split\(\)" % loop.target.id, ast.unparse(loop.body[0])) if isinstance(loop.target, ast.Name) else None
+    if not mt or ast.unparse(loop.body[1]) != "if not %s:\n    continue" % mt.group(1):
         T.fail(rel, loop, "unexpected tokenisation of an .obj line")
+    tk = mt.group(1)   # the name of the token list (local renames are harmless)
     chain, orelse = if_chain(loop.body[2])
     if orelse or len(loop.body) != 3:
         T.fail(rel, loop, "unexpected keyword dispatch")
     seen = {}
     for test, body in chain:
-        if not (isinstance(test, ast.Compare) and ast.unparse(test.left) == "toks[0]" and len(test.ops) == 1
+        if not (isinstance(test, ast.Compare) and ast.unparse(test.left) == tk + "[0]" and len(test.ops) == 1
                 and isinstance(test.ops[0], ast.Eq) and str_const(test.comparators[0]) is not None):
             T.fail(rel, test, "expected toks[0] == '<kw>'")
         kw = test.comparators[0].value
-        b = [ast.unparse(s) for s in body]
+        b = [re.sub(r"\b%s\b" % re.escape(tk), "toks", ast.unparse(s)) for s in body]
         if b == ["obj.vertices.append(Vec([float(v) for v in toks[1:4]]))"] or \
                 (len(b) == 1 and re.fullmatch(r"obj\.vertices\.append\(Vec\(\[float\(v\) for v in toks\[\d+:\d+\]\]\)\)", b[0])):
             sl = find_one(walk_type(body[0], ast.Subscript), lambda s: isinstance(s.slice, ast.Slice), rel, "slice", body[0])
-            lo, hi = slice_bounds(sl, "toks", {}, rel)
+            lo, hi = slice_bounds(sl, tk, {}, rel)
             seen["v"] = kw
             o.d("Definition obj_imp_v_lo : Z := %s." % lo)
             o.d("Definition obj_imp_v_hi : Z := %s." % hi)
@@ -425,12 +440,12 @@ def gen_obj(o):
             pos = []
             forms = set()
             for e in asg.value.elts:
-                subs = [s for s in walk_type(e, ast.Subscript) if ast.unparse(s.value) == "toks"]
+                subs = [s for s in walk_type(e, ast.Subscript) if ast.unparse(s.value) == tk]
                 if len(subs) != 1:
                     T.fail(rel, e, "expected one toks[k]")
-                k = subscript_const(subs[0], "toks", rel)
+                k = subscript_const(subs[0], tk, rel)
                 pos.append(k)
-                forms.add(zexpr(e, {"int(toks[%d])" % k: "x"}, rel))
+                forms.add(zexpr(e, {"int(%s[%d])" % (tk, k): "x"}, rel))
             if len(forms) != 1:
                 T.fail(rel, asg, "the two edge indices are converted differently")
             seen["l"] = kw
@@ -967,6 +982,13 @@ def gen_geogram(o):
                                               ("n_corners", "attr", "attr_key"), ("n_cells", "attr", "attr_key"), ("n_corners", "attr", "attr_key"),
                                               ("n_cell_faces", "attr", "attr_key")]:
         T.fail(rel, ex, "unexpected export_attribute calls")
+    m_adj = re.findall(r"if mesh\.face_corners\.has_attribute\('(\w+)'\):", ast.unparse(ex))
+    m_skip = re.findall(r"if attr_key == '(\w+)':\n\s+continue", ast.unparse(ex))
+    if len(m_adj) != 1 or m_skip != [m_adj[0], "adjacent_cell"]:
+        T.fail(rel, ex, "unexpected handling of the adjacency attributes in export_geogram_ascii")
+    o.d("(* attribute names export_geogram_ascii gives a special treatment to (face corners / cell facets) *)")
+    o.d("Definition geo_exp_fc_adj_name := %s." % coq_str(m_adj[0]))
+    o.d("Definition geo_exp_cf_adj_name := %s." % coq_str(m_skip[1]))
     o.d("(* container names handed to export_attribute, for vertices, edges, faces, face corners, cells, cell corners, cell faces *)")
     o.d("Definition geo_exp_user_cont : list string := %s." % slist([c for _, _, c, _, _ in uc]))
     ext = ast.unparse(ex)
